@@ -98,6 +98,9 @@ class Recorder:
         self.abort_exc = InjectedFault
         self.abort_fired = 0
         self.abort_site = None
+        self.abort_in = []
+        self.trace_frames = ()      # function names whose seam calls are to be located (fault targeting)
+        self.frame_hits = {}
         self.lie = None          # callable(kind, index, value) -> value or None (proversim, wire mode)
         self.checked_cons = 0    # how many constraints the incremental checker has seen
         self.cons_flags = []     # per constraint: True if emitted while the *plan* had ignore_errors on
@@ -106,9 +109,30 @@ class Recorder:
     # -- seam ---------------------------------------------------------------------------
     def _seam(self, site):
         self.seam_calls += 1
+        if self.trace_frames:
+            f = sys._getframe(2)
+            depth = 0
+            while f is not None and depth < 40:
+                if f.f_code.co_name in self.trace_frames and f.f_code.co_filename.endswith(("branching.py", "runtime.py")):
+                    self.frame_hits.setdefault(f.f_code.co_name, []).append(self.seam_calls)
+                f = f.f_back
+                depth += 1
         if self.abort_at is not None and self.seam_calls == self.abort_at:
             self.abort_fired += 1
             self.abort_site = site
+            # which library functions is the fault landing in? (reach probes)
+            f = sys._getframe(2)
+            names = set()
+            depth = 0
+            while f is not None and depth < 40:
+                fn = f.f_code.co_filename
+                if fn.endswith("runtime.py") or fn.endswith("branching.py") or fn.endswith("array.py"):
+                    names.add(f.f_code.co_name)
+                f = f.f_back
+                depth += 1
+            self.abort_in = sorted(names & {"add_guard", "exit", "enter", "__guarded", "if_then_else", "add_constraint",
+                                            "to_bits", "check_positive", "check_zero", "__divmod__", "__getitem__",
+                                            "__setitem__", "_while", "_elif", "_else", "end"})
             raise self.abort_exc("injected fault at seam call %d (%s)" % (self.seam_calls, site))
 
     def val_of(self, idx):
